@@ -118,8 +118,8 @@ class EChaos(Engine):
             else:
                 k = o.get('kind') if o.get('kind') in CLASSES else 'Bits'
                 x = getattr(B, k)(bin=bits)
-                if hasattr(x, '_pos'):
-                    x._pos = min(int(o.get('pos', 0)), len(bits))
+                if kernel.is_stream(x):
+                    kernel.set_pos(x, min(int(o.get('pos', 0)), len(bits)))
                 self.objs.append(x)
         if not self.objs:
             self.objs.append(B.BitArray('0x0f'))
@@ -260,12 +260,12 @@ class EChaos(Engine):
         n = len(x) if kernel.is_bits(x) else len(x.data)
         alen = call(len, x)
         alen = alen[1] if alen[0] == 'ok' else 0
-        if kind == 'call' and hasattr(x, '_pos') and g.chance(0.08):
+        if kind == 'call' and kernel.is_stream(x) and g.chance(0.08):
             # several variable-length codes in one list read: the last may be truncated
             k_ = g.int(1, 5)
             code = g.pick(['ue', 'se', 'ue', 'uie', 'sie'])
             return {'k': 'call', 'obj': i, 'member': g.pick(['readlist', 'readlist', 'peeklist', 'unpack']), 'args': [{'t': 'str', 'v': ', '.join([code] * k_)}], 'kwargs': {}}
-        if kind == 'call' and hasattr(x, '_pos') and g.chance(0.12):
+        if kind == 'call' and kernel.is_stream(x) and g.chance(0.12):
             return {'k': 'setprop', 'obj': i, 'name': 'pos', 'value': {'t': 'int', 'v': g.pick([n, n, n - 1, n - 7, n // 2])}}
         if kind == 'call':
             member = g.pick(self.members[cname])
@@ -540,8 +540,8 @@ class EChaos(Engine):
             if kernel.is_bits(x):
                 st, b = call(lambda: x.bin)
                 out.append((i, 'len==len(bin)', st == 'ok' and len(b) == len(x)))
-                if hasattr(x, '_pos'):
-                    out.append((i, '0<=pos<=len', isinstance(x._pos, int) and 0 <= x._pos <= len(x)))
+                if kernel.is_stream(x):
+                    out.append((i, '0<=pos<=len', isinstance(kernel.get_pos(x), int) and 0 <= kernel.get_pos(x) <= len(x)))
                     self.probe('stream_pos_checked')
                 if type(x).__name__ in IMMUTABLE:
                     out.append((i, 'immutable-unchanged', kernel.safe_bin(x) == self.snap[i]))
@@ -591,7 +591,7 @@ class EChaos(Engine):
                 incs.append(self.inc(f'{label}|{mode}|invalid-post-state:{n}', event=ev, cls=cls, obj=i))
                 # resynchronise the subject so that one defect is reported once
                 if n == '0<=pos<=len':
-                    self.objs[i]._pos = 0
+                    kernel.set_pos(self.objs[i], 0)
                 elif n == 'immutable-unchanged':
                     self.snap[i] = kernel.safe_bin(self.objs[i])
                 elif n == 'options-as-left':
@@ -753,7 +753,7 @@ class EChaos(Engine):
             if st == 'ok' and (kernel.is_bits(r) or kernel.is_array(r)):
                 st2, b = call(lambda: (r.bin if kernel.is_bits(r) else r.data.bin))
                 ln = len(r) if kernel.is_bits(r) else len(r.data)
-                if st2 != 'ok' or len(b) != ln or (hasattr(r, '_pos') and not 0 <= r._pos <= ln):
+                if st2 != 'ok' or len(b) != ln or (kernel.is_stream(r) and not 0 <= kernel.get_pos(r) <= ln):
                     incs.append(self.inc(f'{label}|{"lsb0" if self.opts[0] else "msb0"}|created-invalid-object', event=ev))
                 elif ln <= 4096:
                     slot = int(ev.get('slot', 0)) % 4
